@@ -372,6 +372,47 @@ func runC16(r *engine.Run) {
 			DevAddr: 0x01020304, DL: 0x23, RxDelay: 1, JoinNonce: 0x010203, MICFlip: -1, TxID: 4711}
 	}
 
+	// ---- many devices through one handler: every device has root keys, identifiers and nonces of its
+	// own; the requests (join 1.0 / join 1.1 / rejoin 0 in turn, every 16th with a flipped MIC bit) follow
+	// the many-arguments history (earlier devices return after 1, 63, i/2 and i further devices)
+	{
+		n := manyHistoryN(r) / 4
+		r.Rule += fmt.Sprintf(" Many-devices history: %d devices with their own keys through one handler in one sequence (returning to earlier devices), each answer judged like every other.", n)
+		mkDev := func(i int) C16Case {
+			k := baseCase()
+			k.NwkKey, k.AppKey = manyKey(2*i), manyKey(2*i+1)
+			k.DevEUI = [8]byte{0x70, 0xB3, 0xD5, byte(i >> 16), byte(i >> 8), byte(i), 0x5A, byte(i * 3)}
+			k.Nonce, k.DevAddr, k.JoinNonce, k.TxID = uint16(i*7+1), 0x26000000+uint32(i), (i*5+1)&0xFFFFFF, uint32(1000+i)
+			switch i % 3 {
+			case 1:
+				k.DL |= 0x80
+			case 2:
+				k.Kind, k.DL = 1, k.DL|0x80
+			}
+			return k
+		}
+		devs := make([]C16Case, n)
+		for i := range devs {
+			devs[i] = mkDev(i)
+		}
+		r.PartWorkers("many-devices", []string{fmt.Sprintf("devices:%d", n), "kind{join 1.0, join 1.1, rejoin 0}", "MIC{correct, bit flipped (every 16th request)}"}, 1, 1, func(c *engine.Case) {
+			h := C16Handler(devs, nil)
+			step := 0
+			ok := manyHistoryRun(n, func(i int) bool {
+				k := devs[i]
+				step++
+				if step%16 == 0 && k.Kind == 0 {
+					k.MICFlip = step % 32
+				}
+				judge(c, k, h)
+				return true
+			})
+			if ok {
+				c.Outcome("many-devices/history-completed")
+			}
+		})
+	}
+
 	// ---- A: crypto tuples
 	spA := (&engine.Space{}).Dim("kind", 4).Dim("nwkkey{A,B,all-zero}", 3).Dim("appkey{A,B,all-zero}", 3).Dim("deveui{A,B,unknown}", 3).Dim("joineui", 2).Dim("nonce", 3).Dim("netid", 2).Dim("optneg", 2).Dim("echo tuple", 2)
 	r.PartDims("A/crypto-tuples", spA.Desc(), spA.N(), func(c *engine.Case) {
